@@ -321,7 +321,11 @@ func genRegex(rt *rapid.T, value, alpha string) *rxNode {
 			case 0:
 				a = rxAtom{Kind: '.'}
 			case 1:
-				set := string(c) + drawWord(rt, "abAB01", 0, 2, "rx_set")
+				// never both cases of one letter in a set: go1.23 regexp/syntax
+				// turns [aA] into (?i:A) and then wrongly factors it with a
+				// case-sensitive literal A of another branch ("[aA]$|A" matches
+				// "aB"); that is a toolchain bug, kept out of the domain
+				set := string(c) + drawWord(rt, "01xy", 0, 2, "rx_set")
 				if strings.ContainsAny(set, `]\^-`) {
 					set = "ab"
 				}
